@@ -146,3 +146,200 @@ func GlobalWrites(p *Program) []GlobalWrite {
 	sort.Slice(out, func(i, j int) bool { return out[i].String() < out[j].String() })
 	return out
 }
+
+// IsReadonly reports whether the function never writes through its receiver or pointer parameters
+// (syntactic, transitive over in-module callees; recursion is treated optimistically and re-checked by the callee itself).
+func (p *Program) IsReadonly(fi *FuncInfo) bool {
+	if p.roMemo == nil {
+		p.roMemo = map[*FuncInfo]int{}
+	}
+	switch p.roMemo[fi] {
+	case 1:
+		return true
+	case 2:
+		return false
+	case 3:
+		return true // in progress (recursion)
+	}
+	p.roMemo[fi] = 3
+	ok := p.computeReadonly(fi)
+	if ok {
+		p.roMemo[fi] = 1
+	} else {
+		p.roMemo[fi] = 2
+	}
+	return ok
+}
+
+func (p *Program) computeReadonly(fi *FuncInfo) bool {
+	if fi.Decl.Body == nil {
+		return false
+	}
+	info := fi.Pkg.TypesInfo
+	sig := fi.Obj.Type().(*types.Signature)
+	ptrs := map[types.Object]bool{}
+	if rv := sig.Recv(); rv != nil {
+		if _, isPtr := rv.Type().(*types.Pointer); isPtr {
+			ptrs[rv] = true
+		}
+	}
+	for i := 0; i < sig.Params().Len(); i++ {
+		pv := sig.Params().At(i)
+		switch pv.Type().Underlying().(type) {
+		case *types.Pointer, *types.Map:
+			ptrs[pv] = true
+		}
+	}
+	if len(ptrs) == 0 {
+		return true
+	}
+	mods := assignedVarsNoCalls(info, fi.Decl.Body)
+	for o := range ptrs {
+		if mods[o] {
+			return false
+		}
+	}
+	ok := true
+	ast.Inspect(fi.Decl.Body, func(n ast.Node) bool {
+		call, isCall := n.(*ast.CallExpr)
+		if !isCall || !ok {
+			return ok
+		}
+		rootOf := func(e ast.Expr) types.Object {
+			for {
+				switch x := e.(type) {
+				case *ast.ParenExpr:
+					e = x.X
+				case *ast.StarExpr:
+					e = x.X
+				case *ast.UnaryExpr:
+					e = x.X
+				case *ast.SelectorExpr:
+					if sel, isSel := info.Selections[x]; isSel && sel.Kind() == types.FieldVal {
+						e = x.X
+					} else {
+						return nil
+					}
+				case *ast.IndexExpr:
+					e = x.X
+				case *ast.Ident:
+					return info.Uses[x]
+				default:
+					return nil
+				}
+			}
+		}
+		var callee *types.Func
+		var recvExpr ast.Expr
+		switch f := ast.Unparen(call.Fun).(type) {
+		case *ast.Ident:
+			callee, _ = info.Uses[f].(*types.Func)
+		case *ast.SelectorExpr:
+			if sel, isSel := info.Selections[f]; isSel {
+				callee, _ = sel.Obj().(*types.Func)
+				recvExpr = f.X
+			} else {
+				callee, _ = info.Uses[f.Sel].(*types.Func)
+			}
+		}
+		passes := false
+		if recvExpr != nil {
+			if o := rootOf(recvExpr); o != nil && ptrs[o] {
+				if csig, isSig := callee.Type().(*types.Signature); isSig && csig.Recv() != nil {
+					if _, isPtr := csig.Recv().Type().(*types.Pointer); isPtr {
+						passes = true
+					}
+				}
+			}
+		}
+		for _, a := range call.Args {
+			if o := rootOf(a); o != nil && ptrs[o] {
+				if t := info.TypeOf(a); t != nil {
+					switch t.Underlying().(type) {
+					case *types.Pointer, *types.Map:
+						passes = true
+					}
+				}
+				if u, isU := a.(*ast.UnaryExpr); isU && u.Op == token.AND {
+					passes = true
+				}
+			}
+		}
+		if !passes {
+			return true
+		}
+		if callee == nil {
+			ok = false
+			return false
+		}
+		cfi := p.ByObj[callee]
+		if cfi == nil {
+			// library callee receiving our pointer: assume it may write
+			ok = false
+			return false
+		}
+		if !p.IsReadonly(cfi) {
+			ok = false
+		}
+		return ok
+	})
+	return ok
+}
+
+func assignedVarsNoCalls(info *types.Info, n ast.Node) map[types.Object]bool {
+	out := map[types.Object]bool{}
+	var root func(e ast.Expr) types.Object
+	root = func(e ast.Expr) types.Object {
+		switch e := e.(type) {
+		case *ast.Ident:
+			if o := info.Uses[e]; o != nil {
+				return o
+			}
+			return info.Defs[e]
+		case *ast.ParenExpr:
+			return root(e.X)
+		case *ast.StarExpr:
+			return root(e.X)
+		case *ast.SelectorExpr:
+			if sel, ok := info.Selections[e]; ok && sel.Kind() == types.FieldVal {
+				return root(e.X)
+			}
+		case *ast.IndexExpr:
+			return root(e.X)
+		case *ast.SliceExpr:
+			return root(e.X)
+		}
+		return nil
+	}
+	ast.Inspect(n, func(n ast.Node) bool {
+		switch s := n.(type) {
+		case *ast.AssignStmt:
+			if s.Tok == token.DEFINE {
+				// a := p.f  is not a write to p; but x := &p.f aliases: treat conservatively below
+			}
+			for _, l := range s.Lhs {
+				if _, isIdent := l.(*ast.Ident); isIdent {
+					continue // rebinding a local name is not a write through it
+				}
+				if o := root(l); o != nil {
+					out[o] = true
+				}
+			}
+			for _, r := range s.Rhs {
+				if u, ok := r.(*ast.UnaryExpr); ok && u.Op == token.AND {
+					if o := root(u.X); o != nil {
+						out[o] = true // address escapes into a local: conservative
+					}
+				}
+			}
+		case *ast.IncDecStmt:
+			if _, isIdent := s.X.(*ast.Ident); !isIdent {
+				if o := root(s.X); o != nil {
+					out[o] = true
+				}
+			}
+		}
+		return true
+	})
+	return out
+}
